@@ -41,6 +41,8 @@ def run(c):
     if not c.coq_make(dirs=["Producer", "C05"]):
         return
     c.coq_properties()
+    from decgen_tie import run_decgen
+    run_decgen(c, "C05")   # regenerated leaf logic (go/decgen) vs the proved golden coq/Gen/DecC05.v
     b = c.go_build("c05corr")
     if not b:
         return
